@@ -146,7 +146,7 @@ def k_events(ctx, exe, proofs_ok):
             seqs.append(w)
     v = "From Coq Require Import List.\nFrom Gama Require Import GkfRun.\nImport ListNotations.\n" \
         "Definition ws : list (list nat) := [\n%s\n].\n" % ";\n".join("[%s]" % "; ".join(str(c) for c in w) for w in seqs) + \
-        'Goal True. idtac "@@RAND". Abort.\nEval vm_compute in map (fun w => (w, verdict w, in_code_grammar w, in_xsd_grammar w)) ws.\n'
+        'Goal True. idtac "@@RAND". Abort.\nEval vm_compute in map (fun w => (w, verdict w, verdicts_agree w, in_xsd_grammar w)) ws.\n'
     rc, cout = vlib.coq_run(v, ctx.scratch, name="cases_c11_rand", timeout=1800)
     ctx.checker_cmds.append("coqc -Q coq Gama cases_c11_rand.v   (verdicts of %d random documents)" % len(seqs))
     if rc != 0 or "@@RAND" not in cout:
@@ -293,10 +293,11 @@ def judge_documents(ctx, exe, docs, tags, name, label):
             why = "a document outside the grammar is accepted (the model refuses event %d, line %d)" % (exp, exp + 2)
         elif exp is not None and abs(line - (exp + 2)) > (1 if codes[exp] == 1 else 0):
             why = "refused at line %d, the first offending event is on line %d" % (line, exp + 2)
-        elif verdict is None and not incode:
-            why = "the regenerated automaton accepts a document outside the grammar"
-        elif verdict is not None and incode:
-            why = "the regenerated automaton refuses a document of the grammar"
+        elif not incode:
+            # (third component: the regenerated automaton and the stack machine of the grammar give the same verdict and position)
+            why = ("the parser's automaton accepts a document outside the element grammar" if verdict is None else
+                   "the parser's automaton refuses at event %d (line %d), not where the element grammar is first violated: the events in between "
+                   "were processed in a state that does not belong to the open elements" % (verdict, verdict + 2))
         if why:
             bad += 1
             if bad <= 5:
